@@ -566,6 +566,8 @@ impl RuleBuilder<'_, '_> {
         self.qb.query.action = action_id;
         // Plan the query
         let plan = self.qb.rsb.db.plan_query(self.qb.query);
+        #[cfg(egglog_verif)]
+        crate::verif_hook::record(&plan);
         let desc: String = desc.into();
         // Add it to the ruleset.
         self.qb
